@@ -32,7 +32,7 @@ def md_unescape(s):
 
 def normalize_label(label):
     """Case fold, strip, collapse internal whitespace (spec 4.7 / 6.3 'matches')."""
-    return ' '.join(label.split()).casefold()
+    return re.sub(r'[ \t\r\n]+', ' ', label.strip(' \t\r\n')).casefold()       # (other Unicode spaces are part of the label)
 
 
 # hard-coded fold pairs, so that the oracle does not rest on str.casefold alone
